@@ -22,6 +22,7 @@ struct MBuf {
 	bool fuzzy_undo = false;	// a step with no net text change happened: undo depth ambiguous
 	int row = 0, off = 0;
 	bool partial_own_write = false;	// a partial range was written to the buffer's own path since it became dirty
+	bool file_changed_outside = false;	// another process rewrote the file after the editor last read / wrote it
 
 	bool differs() const { return text != saved_text; }
 	bool at_saved_pos() const { return pos == saved_pos; }
